@@ -155,6 +155,10 @@ class State:
             self.assume(g, tag='%s.%s' % (prefix, k))
 
 
+def _mulk(i, k):
+    return i * k if not is_sym(i) else to_int(i) * k
+
+
 def exc_is_subclass(name, handler):
     if handler in (None, 'Exception', 'BaseException') or name == handler:
         return True
@@ -1843,6 +1847,17 @@ class Exec:
                         elif cn < 0:
                             n = 0
                         plan.append(('s', lo_t, n, 1))
+                    elif step is not None and step > 1:
+                        # a[lo:hi:k], k > 1 concrete: ceil((hi-lo)/k) elements lo, lo+k, ...
+                        lo_t = self.clamp_bound(lo, dim, 0, st)
+                        hi_t = self.clamp_bound(hi, dim, dim, st)
+                        d_ = _sub(hi_t, lo_t)
+                        cd_ = conc_int(d_)
+                        if cd_ is not None:
+                            n = max(0, -(-cd_ // step))
+                        else:
+                            n = z3.If(to_int(d_) > 0, (to_int(d_) + (step - 1)) / step, z3.IntVal(0))
+                        plan.append(('s', lo_t, n, step))
                     else:
                         raise Unsupported('slice step %r' % step)
             d += 1
@@ -1907,7 +1922,7 @@ class Exec:
                 if p[0] == 'i':
                     src.append(p[1])
                 elif p[0] == 's':
-                    src.append(_add(p[1], ix[o]) if p[3] == 1 else _sub(p[1], ix[o]))
+                    src.append(_add(p[1], ix[o]) if p[3] == 1 else (_sub(p[1], ix[o]) if p[3] == -1 else _add(p[1], _mulk(ix[o], p[3]))))
                     o += 1
                 else:
                     o += 1
@@ -1919,7 +1934,7 @@ class Exec:
                 if p[0] == 'i':
                     src.append(p[1])
                 elif p[0] == 's':
-                    src.append(_add(p[1], ix[o]) if p[3] == 1 else _sub(p[1], ix[o]))
+                    src.append(_add(p[1], ix[o]) if p[3] == 1 else (_sub(p[1], ix[o]) if p[3] == -1 else _add(p[1], _mulk(ix[o], p[3]))))
                     o += 1
                 else:
                     o += 1
@@ -2067,12 +2082,23 @@ class Exec:
                     if c1 is not True:
                         conds.append(c1)
                 else:
-                    if p[3] != 1:
+                    if p[3] == -1:
                         raise Unsupported('store through reversed slice')
                     lo, n = p[1], p[2]
-                    r = _sub(i, lo)
+                    if p[3] == 1:
+                        r = _sub(i, lo)
+                        c1 = self.c.And(_ge(i, lo), _lt(r, n))
+                    else:
+                        k_ = p[3]       # strided store a[lo::k] = v: position i is written iff (i-lo) is a non-negative multiple of k
+                        off = _sub(i, lo)
+                        co = conc_int(off)
+                        if co is not None:
+                            r = co // k_
+                            c1 = self.c.And(co >= 0 and co % k_ == 0, _lt(r, n))
+                        else:
+                            r = to_int(off) / k_
+                            c1 = self.c.And(to_int(off) >= 0, to_int(off) % k_ == 0, _lt(r, n))
                     rel.append(r)
-                    c1 = self.c.And(_ge(i, lo), _lt(r, n))
                     if c1 is not True:
                         conds.append(c1)
             if V is not None:
